@@ -9,6 +9,9 @@ package selector
 // as an UNPROVED clause: the solvers do not discharge the quantified invariants of the smooth
 // weighted round-robin loops within the time limit, so callers assume it and the evidence lists it
 // as an unchecked assumption (see DESIGN.md, C13).
+// The scaling range R of the property statement is pinned where it is complete (in front of the test
+// `totalCapacity < 0`, the 8th conditional branch of the function): R = min(100, max(10, Wmax / Wmin)) for
+// positive weights, 1 otherwise.
 //
 //@ func BuildStaticWeightList
 //@   requires len(endpoints) <= 16777216
@@ -17,6 +20,7 @@ package selector
 //@   ensures unproved [C13] forall j {result[j]} :: (0 <= j && j < len(result)) ==> (0 <= result[j] && result[j] < len(endpoints))
 //@   loop 0 invariant 0 - 2147483648 * (rangeindex + 1) <= totalCapacity && totalCapacity <= 2147483647 * (rangeindex + 1)
 //@   loop 0 invariant [C13] forall j {endpoints[j].Weight} :: (0 <= j && j <= rangeindex) ==> (minWeight <= endpoints[j].Weight && endpoints[j].Weight <= maxWeight)
+//@   site if#7 assert [C13] (minWeight > 0 ==> maxRange == min(100, max(10, maxWeight / minWeight))) && (minWeight <= 0 ==> (maxRange == 1 && totalWeight == 1))
 //@   loop 1 invariant idToWeight != nil && objof(weightToId) != objof(staticWeightRouterCache)
 //@   loop 1 invariant (objof(staticWeightRouterCache) == objof(atentry(1, staticWeightRouterCache)) || loopfresh(1, staticWeightRouterCache)) && (objof(weightToId) == 0 || loopfresh(1, weightToId))
 //@   loop 2 invariant idToWeight != nil && objof(weightToId) != objof(staticWeightRouterCache)
